@@ -53,6 +53,7 @@ class Monitor:
         self.tainted = False   # a live holder was broken with matching info: statement's exemption
         self.breaking = {}     # actor -> (examined nonce, disk nonce at call time)
         self.in_unlock = {}    # actor -> nonce   (between unlock-call and unlock-return: still a live holder on disk)
+        self.seen_nonces = set()
         self.unlock_hit_by_mismatch = set()  # actors whose lock a mismatched break renamed away while they were inside unlock()
         self.events = []
         self.sched_actors = set()
@@ -122,6 +123,12 @@ class Monitor:
 
     def acquired(self, actor, nonce):
         self.ctx.count("acquire_ok")
+        # the nonce is what makes held info stale once the lock has changed hands (also when the same object takes it
+        # again): every acquisition must carry a fresh one
+        if nonce in self.seen_nonces:
+            self.ctx.fail("nonce:reused-by-a-later-acquisition", "%s acquired with nonce %s, which an earlier acquisition in this schedule already used" % (actor, nonce),
+                          {"events": self.events[-30:]})
+        self.seen_nonces.add(nonce)
         others = {a: n for a, n in self.holders.items() if a != actor}
         for a, n in others.items():
             why = self.broken.get(a)
@@ -384,16 +391,20 @@ def steal_case(ctx):
     info_path = os.path.join(root, "lock", "held", "info")
     data = open(info_path, "rb").read().decode()
     mine = LockHeldInfo.from_info_file_bytes(data.encode())
-    host_kind = rng.choice(["ours", "other"])
-    user_kind = rng.choice(["ours", "other"])
+    host_kind = rng.choice(["ours", "ours", "other", "absent"])
+    user_kind = rng.choice(["ours", "ours", "other", "absent"])
     pid_kind = rng.choice(["dead", "alive", "absent"])
     option = rng.choice([True, False])
     lines = []
     for line in data.splitlines():
         if line.startswith("hostname:") and host_kind == "other":
             line = "hostname: some-other-host.example"
+        elif line.startswith("hostname:") and host_kind == "absent":
+            continue
         elif line.startswith("user:") and user_kind == "other":
             line = "user: somebody-else"
+        elif line.startswith("user:") and user_kind == "absent":
+            continue  # an info file that does not record the user: nothing says the holder is ours
         elif line.startswith("pid:"):
             if pid_kind == "dead":
                 line = "pid: %d" % _get_dead_pid()
